@@ -485,6 +485,10 @@ impl Language for Swift {
             ..
         } = e
         {
+            // The keys are written as enum cases and member accesses: a Swift keyword needs backticks there
+            // (the raw value of the case stays the bare key).
+            let tag_key = swift_keyword_aware_rename(tag_key.as_str());
+            let content_key = swift_keyword_aware_rename(content_key.as_str());
             writeln!(
                 w,
                 r#"
@@ -584,6 +588,8 @@ impl Swift {
                 content_key,
                 shared,
             } => {
+                let tag_key = swift_keyword_aware_rename(tag_key.as_str());
+                let content_key = swift_keyword_aware_rename(content_key.as_str());
                 let generics = &shared.generic_types;
                 for v in &shared.variants {
                     self.write_comments(w, 1, &v.shared().comments)?;
